@@ -149,6 +149,7 @@ class _Expr(ast.NodeTransformer):
 
     def visit_Compare(self, node):
         self.generic_visit(node)
+        node = self._keys_membership(node)
         g = self._getattr_compare(node)
         if g is not None:
             return g
@@ -169,6 +170,15 @@ class _Expr(ast.NodeTransformer):
                 return ast.copy_location(ast.BoolOp(op=ast.Or(), values=[
                     ast.UnaryOp(op=ast.Not(), operand=has), ast.Compare(left=attr, ops=[ast.Is()], comparators=[ast.Constant(value=None)])]), node)
         return None
+
+    @staticmethod
+    def _keys_membership(node):
+        """`k in D.keys()` == `k in D`"""
+        if len(node.ops) == 1 and isinstance(node.ops[0], (ast.In, ast.NotIn)):
+            c = node.comparators[0]
+            if isinstance(c, ast.Call) and isinstance(c.func, ast.Attribute) and c.func.attr == "keys" and not c.args and not c.keywords:
+                node.comparators[0] = c.func.value
+        return node
 
     def _compare_rest(self, node):
         # membership in a literal display: list / tuple / set are interchangeable
@@ -195,6 +205,14 @@ class _Expr(ast.NodeTransformer):
             node.keywords = []
         if d in ("list", "tuple") and len(node.args) == 1 and isinstance(node.args[0], (ast.ListComp,)) and not node.keywords:
             return node.args[0] if d == "list" else node
+        # set algebra by method or by operator: a.union(b) == a | b, a.intersection(b) == a & b (one argument)
+        if isinstance(node.func, ast.Attribute) and node.func.attr in ("union", "intersection") and len(node.args) == 1 and not node.keywords \
+                and not isinstance(node.args[0], ast.Starred):
+            return ast.copy_location(ast.BinOp(left=node.func.value, op=ast.BitOr() if node.func.attr == "union" else ast.BitAnd(), right=node.args[0]), node)
+        # iterating a mapping iterates its keys: list(D.keys()) == list(D), sorted / set / tuple / len alike
+        if d in ("list", "tuple", "sorted", "set", "len", "iter") and len(node.args) == 1 and not node.keywords and isinstance(node.args[0], ast.Call) \
+                and isinstance(node.args[0].func, ast.Attribute) and node.args[0].func.attr == "keys" and not node.args[0].args and not node.args[0].keywords:
+            node.args[0] = node.args[0].func.value
         if d == "isinstance" and len(node.args) == 2 and isinstance(node.args[1], ast.Tuple) and len(node.args[1].elts) >= 2 and not node.keywords \
                 and isinstance(node.args[0], (ast.Name, ast.Attribute)):
             # isinstance(x, (A, B)) == isinstance(x, A) or isinstance(x, B)
@@ -506,15 +524,58 @@ def _loop_to_comp(stmts):
     while i < len(stmts):
         s = stmts[i]
         _recurse(s, _loop_to_comp)
-        if (isinstance(s, ast.Assign) and len(s.targets) == 1 and isinstance(s.targets[0], ast.Name) and isinstance(s.value, ast.List) and not s.value.elts
-                and i + 1 < len(stmts) and isinstance(stmts[i + 1], ast.For) and not stmts[i + 1].orelse):
+        if (isinstance(s, ast.Assign) and len(s.targets) == 1 and isinstance(s.targets[0], ast.Name) and isinstance(s.value, ast.List) and not s.value.elts):
+            name = s.targets[0].id
+            # the first later statement that mentions the list; what lies between does not see it, so the empty list may be
+            # created right in front of that statement
+            j = i + 1
+            while j < len(stmts) and not any(isinstance(n, ast.Name) and n.id == name for n in ast.walk(stmts[j])):
+                j += 1
+            if j < len(stmts) and isinstance(stmts[j], ast.For) and not stmts[j].orelse:
+                lp = stmts[j]
+                comp = _comp_of_loop(lp, name)
+                if comp is not None:
+                    for k in range(i + 1, j):
+                        _recurse(stmts[k], _loop_to_comp)
+                        out.append(stmts[k])
+                    out.append(ast.copy_location(ast.Assign(targets=s.targets, value=comp), s))
+                    i = j + 1
+                    continue
+        out.append(s)
+        i += 1
+    return out
+
+
+def _update_loop_to_dictcomp(stmts):
+    """d = {}; for m in L: d.update(m)   ->   d = {p[0]: p[1] for m in L for p in m.items()}   (later keys win in both forms)"""
+    out = []
+    i = 0
+    while i < len(stmts):
+        s = stmts[i]
+        _recurse(s, _update_loop_to_dictcomp)
+        if (isinstance(s, ast.Assign) and len(s.targets) == 1 and isinstance(s.targets[0], ast.Name) and isinstance(s.value, ast.Dict) and not s.value.keys
+                and i + 1 < len(stmts) and isinstance(stmts[i + 1], ast.For) and not stmts[i + 1].orelse and isinstance(stmts[i + 1].target, ast.Name)):
             name = s.targets[0].id
             lp = stmts[i + 1]
-            comp = _comp_of_loop(lp, name)
-            if comp is not None:
-                out.append(ast.copy_location(ast.Assign(targets=s.targets, value=comp), s))
-                i += 2
-                continue
+            if len(lp.body) == 1 and isinstance(lp.body[0], ast.Expr) and isinstance(lp.body[0].value, ast.Call):
+                c = lp.body[0].value
+                if isinstance(c.func, ast.Attribute) and c.func.attr == "update" and isinstance(c.func.value, ast.Name) and c.func.value.id == name \
+                        and len(c.args) == 1 and not c.keywords and isinstance(c.args[0], ast.Name) and c.args[0].id == lp.target.id \
+                        and not any(isinstance(n, ast.Name) and n.id == name for n in ast.walk(lp.iter)):
+                    pv = "p__" + name
+                    comp = ast.DictComp(
+                        key=ast.Subscript(value=ast.Name(id=pv, ctx=ast.Load()), slice=ast.Constant(value=0), ctx=ast.Load()),
+                        value=ast.Subscript(value=ast.Name(id=pv, ctx=ast.Load()), slice=ast.Constant(value=1), ctx=ast.Load()),
+                        generators=[ast.comprehension(target=lp.target, iter=lp.iter, ifs=[], is_async=0),
+                                    ast.comprehension(target=ast.Name(id=pv, ctx=ast.Store()),
+                                                      iter=ast.Call(func=ast.Attribute(value=ast.Name(id=lp.target.id, ctx=ast.Load()), attr="items", ctx=ast.Load()), args=[], keywords=[]),
+                                                      ifs=[], is_async=0)])
+                    new = ast.Assign(targets=s.targets, value=comp)
+                    ast.copy_location(new, s)
+                    ast.fix_missing_locations(new)
+                    out.append(new)
+                    i += 2
+                    continue
         out.append(s)
         i += 1
     return out
@@ -804,10 +865,15 @@ def _subst_pure_multiuse(fnode):
         mutated = _mutated_names(fnode)
         for block in _blocks(fnode):
             for i, s in enumerate(list(block)):
-                if isinstance(s, ast.Assign) and len(s.targets) == 1 and isinstance(s.targets[0], ast.Name) and _pure_expr(s.value):
+                small_display = isinstance(s, ast.Assign) and isinstance(s.value, ast.List) and 1 <= len(s.value.elts) <= 3 \
+                    and all(isinstance(e, (ast.Name, ast.Constant)) for e in s.value.elts)
+                if isinstance(s, ast.Assign) and len(s.targets) == 1 and isinstance(s.targets[0], ast.Name) and (_pure_expr(s.value) or small_display):
                     name = s.targets[0].id
                     if name in params or name in mutated or len(_stores(fnode, name)) != 1:
                         continue
+                    if small_display and any(isinstance(p_, (ast.Return, ast.Yield, ast.Attribute, ast.Subscript, ast.Compare, ast.Assign, ast.Starred, ast.keyword))
+                                             for p_ in ast.walk(fnode) for ch in ast.iter_child_nodes(p_) if isinstance(ch, ast.Name) and ch.id == name and isinstance(ch.ctx, ast.Load)):
+                        continue   # a small list `[x]` kept in a local: only when it is merely read as an operand / argument (never stored, returned, compared)
                     operands = {n.id for n in ast.walk(s.value) if isinstance(n, ast.Name)}
                     if any((len(_stores(fnode, o)) > (0 if o in params else 1)) or o in mutated for o in operands if o != "self"):
                         continue
@@ -1351,6 +1417,18 @@ def _unreachable(stmts):
     out = []
     for s in stmts:
         _recurse(s, _unreachable)
+        # a test that is a literal truth value (a flag parameter of an inlined helper): only the live arm remains
+        if isinstance(s, ast.If) and isinstance(s.test, ast.Constant) and isinstance(s.test.value, (bool, type(None))):
+            live = s.body if s.test.value else s.orelse
+            stop = False
+            for x in live:
+                out.append(x)
+                if isinstance(x, (ast.Return, ast.Raise, ast.Continue, ast.Break)):
+                    stop = True
+                    break
+            if stop:
+                break
+            continue
         out.append(s)
         if isinstance(s, (ast.Return, ast.Raise, ast.Continue, ast.Break)):
             break
@@ -1734,6 +1812,55 @@ def _in_order(node):
 
 
 # ---------------------------------------------------------------------------------------------------
+def _factor_guard(stmts):
+    """`if P and A: X elif P and B: Y elif P: Z else: W`  ->  `if P: (if A: X elif B: Y else: Z) else: W`  for a side-effect free
+    P (a name, an attribute chain, a comparison of those): the guard-clause flattening of a nested decision, undone.
+    Sequential evaluation of the tests sees the same value of P every time because nothing runs between two tests."""
+    def simple(e):
+        return not any(isinstance(n, (ast.Call, ast.NamedExpr, ast.Await, ast.Yield, ast.YieldFrom)) for n in ast.walk(e))
+
+    out = []
+    for st in stmts:
+        for fld in ("body", "orelse", "finalbody"):
+            sub = getattr(st, fld, None)
+            if isinstance(sub, list) and sub and isinstance(sub[0], ast.stmt) and not isinstance(st, (ast.FunctionDef, ast.ClassDef)):
+                setattr(st, fld, _factor_guard(sub))
+        for h in getattr(st, "handlers", []) or []:
+            h.body = _factor_guard(h.body)
+        if isinstance(st, ast.If):
+            arms, cur = [], st
+            while True:
+                arms.append((cur.test, cur.body))
+                if len(cur.orelse) == 1 and isinstance(cur.orelse[0], ast.If):
+                    cur = cur.orelse[0]
+                else:
+                    tail = cur.orelse
+                    break
+            if len(arms) >= 2:
+                def split(t):
+                    if isinstance(t, ast.BoolOp) and isinstance(t.op, ast.And) and len(t.values) >= 2:
+                        rest = t.values[1:]
+                        return t.values[0], (rest[0] if len(rest) == 1 else ast.BoolOp(op=ast.And(), values=rest))
+                    return t, None
+                parts = [split(t) for t, _b in arms]
+                p0 = unparse(parts[0][0])
+                if simple(parts[0][0]) and all(unparse(p) == p0 for p, _r in parts) and all(r is not None for _p, r in parts[:-1]):
+                    last_exact = parts[-1][1] is None
+                    if last_exact or not tail:
+                        inner_arms = [(r, b) for (_p, r), (_t, b) in zip(parts, arms) if r is not None]
+                        inner_else = arms[-1][1] if last_exact else []
+                        node = None
+                        for r, b in reversed(inner_arms):
+                            node = ast.If(test=r, body=b, orelse=[node] if node is not None else list(inner_else))
+                        outer = ast.If(test=parts[0][0], body=[node] if node is not None else list(inner_else), orelse=list(tail))
+                        ast.copy_location(outer, st)
+                        ast.fix_missing_locations(outer)
+                        out.append(outer)
+                        continue
+        out.append(st)
+    return out
+
+
 def canon_node(fnode):
     f = _canon_once(fnode)
     prev = unparse(f)
@@ -1763,6 +1890,7 @@ def _canon_once(fnode):
     f.body = _while_true(f.body)
     f.body = _ifexp_to_stmt(f.body)
     f.body = _loop_to_comp(f.body)
+    f.body = _update_loop_to_dictcomp(f.body)
     for _ in range(3):
         f.body = _else_form(f.body)
         f.body = _tail_dup(f.body)
@@ -1775,6 +1903,7 @@ def _canon_once(fnode):
     f = _store_load_forward(f)
     f.body = _empty_arms(f.body)
     f = _dead_stores(f)
+    f.body = _factor_guard(f.body)
     f = _forward_subst(f)
     f = _subst_pure_multiuse(f)
     f = _subst_type_tests(f)
